@@ -159,6 +159,42 @@ def struct_pack(ip, args, kw, ctx):
     return Seq('bytes', [Elems(bs)])
 
 
+def struct_unpack(ip, args, kw, ctx):
+    fmt, data = args[0], args[1]
+    if not isinstance(fmt, str):
+        raise _uns("symbolic struct format")
+    table = {"<I": (4, "le", False), ">I": (4, "be", False), "<L": (4, "le", False), ">L": (4, "be", False), "!I": (4, "be", False),
+             "<H": (2, "le", False), ">H": (2, "be", False), "!H": (2, "be", False), "<h": (2, "le", True), ">h": (2, "be", True),
+             "<i": (4, "le", True), ">i": (4, "be", True), "<l": (4, "le", True), ">l": (4, "be", True), "<B": (1, "le", False),
+             ">B": (1, "le", False), "B": (1, "le", False), "<b": (1, "le", True)}
+    if isinstance(data, bytes):
+        import struct
+        try:
+            return struct.unpack(fmt, data)
+        except struct.error as e:
+            _raise("struct.error", str(e))
+    if fmt not in table:
+        raise _uns(f"struct.unpack format {fmt}")
+    n, order, signed = table[fmt]
+    ctx.used_models.add("struct.unpack for one fixed-width integer: struct.error unless the buffer has exactly that size")
+    sq = seqops.concretize(Seq.of(data), ctx)
+    L = sq.length()
+    if isz(L):
+        if not ctx.branch(simp(L == n)):
+            _raise("struct.error", "unpack requires a buffer of %d bytes" % n)
+        sq = seqops.concretize(sq, ctx)
+    elif L != n:
+        _raise("struct.error", "unpack requires a buffer of %d bytes" % n)
+    ts = sq.terms()
+    if order == "be":
+        ts = list(reversed(ts))
+    from .sym import le_value
+    v = le_value(ts)
+    if signed:
+        v = simp(z3.If(zi(v) >= 256 ** n // 2, zi(v) - 256 ** n, zi(v))) if isz(v) else (v - 256 ** n if v >= 256 ** n // 2 else v)
+    return (v,)
+
+
 def b_len(ip, args, kw, ctx):
     v = args[0]
     if isinstance(v, (str, bytes, tuple, list, dict, set)):
@@ -1058,6 +1094,7 @@ def install(ip):
     e["binascii.unhexlify"] = B("unhexlify", b_unhexlify)
     e["binascii.crc_hqx"] = B("crc_hqx", crc_hqx)
     e["struct.pack"] = B("pack", struct_pack)
+    e["struct.unpack"] = B("unpack", struct_unpack)
     e["socket.inet_ntoa"] = B("inet_ntoa", b_inet_ntoa)
     e["socket.AF_INET"] = 2
     e["warnings.warn"] = B("warn", b_warn)
